@@ -14,15 +14,17 @@ RULE = ("string/binary fields x lengths 0..80 bits and multi-KiB x bit offsets 0
         "{US-ASCII, ISO-8859-1, Windows-1252, UTF-8, UTF-16LE/BE, UTF-32LE/BE}; missing terminator, tag larger than buffer, "
         "non-integral adjusted length, negative lengths; distinct = distinct (type, length spec, delimiter, charset, offset, length class, outcome)")
 ASSUMPTIONS = ["codecs are CPython's; the model decodes the supported charsets itself (surrogate pairs and undefined cp1252 bytes are not generated)",
-               "terminator alignment in multi-byte charsets is searched bytewise like the implementation (F15, see DESIGN)"]
+               "the terminator of a multi-byte charset is searched on character boundaries (F15: the bytewise search was a genuine defect, repaired)"]
 
 TEXTS = {
     "US-ASCII": ["", "A", "hello", "X-term", "0123456789abcdef"],
     "ISO-8859-1": ["", "é", "naïve", "ÿþ"],
     "Windows-1252": ["", "abc", "é ü", "plain"],
     "UTF-8": ["", "a", "é", "堀X", "mixed é 堀 😀", "plain ascii"],
-    "UTF-16LE": ["", "A", "Ā堀", "xy"], "UTF-16BE": ["", "A", "Ā堀", "xy"],
-    "UTF-32LE": ["", "A", "堀😀"], "UTF-32BE": ["", "A", "堀😀"],
+    # the last two texts of each multi-byte charset contain the bytes of the terminator "X" ACROSS a character boundary
+    # (e.g. UTF-16BE 41 00 | 58 41 holds 00 58 at byte offset 1): a terminator must be found on character boundaries only
+    "UTF-16LE": ["", "A", "Ā堀", "xy", "\u5841\u4100", "a\u5841\u4100b"], "UTF-16BE": ["", "A", "Ā堀", "xy", "\u4100\u5841", "a\u4100\u5841b"],
+    "UTF-32LE": ["", "A", "堀😀", "\u5841\u4100", "a\u5841\u4100"], "UTF-32BE": ["", "A", "堀😀", "\u4100\u5841", "a\u4100\u5841"],
 }
 CODEC = {"US-ASCII": "ascii", "ISO-8859-1": "latin-1", "Windows-1252": "cp1252", "UTF-8": "utf-8", "UTF-16LE": "utf-16-le",
          "UTF-16BE": "utf-16-be", "UTF-32LE": "utf-32-le", "UTF-32BE": "utf-32-be"}
